@@ -250,6 +250,22 @@ def run_dag(scn, *, hooks_factory=None, keep=False, extra_hooks=None, before_run
         brng = random.Random(scn.get('build_seed', 0))
         built = Built(spec, rng=brng, fresh_prob=scn.get('fresh_prob', 0.0))
         req = built.requested(requested_names)
+        if scn.get('pickled_copies'):
+            # the caller passes copies that went through pickle (e.g. tasks received from another process)
+            import pickle
+            req = pickle.loads(pickle.dumps(req))
+            built.instances = []
+            seen = set()
+
+            def _walk(t):
+                if id(t) in seen:
+                    return
+                seen.add(id(t))
+                built.instances.append((t.name, t))
+                for d in body.walk_deps(t):
+                    _walk(d)
+            for t in req:
+                _walk(t)
         out.built = built
         out.req = req
         deaths = [n for n, a in failing.items() if a in ('kill', 'exit')]
